@@ -6,6 +6,7 @@ from pyvc.task import Contract
 from .prelude import *
 from .tree import *
 from .c13_ns import nsd, nsmap_of, schema_ns, DICT_ARRS
+from .prelude import _CS
 
 Q_ADD_CHILD = "metapype.model.node:Node.add_child"
 
@@ -17,7 +18,8 @@ def clamp_insert_index(it, ln):
 
 def ac_requires(s, self, child, index):
     return {"wf": wf_sub(s, child), "tree": TREE(s, child), "schema": schema_ns(s), "own-lists": own_lists(s),
-            "not-ancestor": z3.Not(SUB(s, child, self))}
+            "not-ancestor": z3.Not(SUB(s, child, self)),
+            "linked": linked(s), "forest": forest(s), "kids-typed": kids_typed(s), "unlisted": unlisted(s, child)}
 
 
 def ac_axioms(s, self, child, index):
@@ -44,6 +46,8 @@ def ac_ensures(s0, s, self, child, index, result=None):
                                     patterns=[s.f("_nsmap", m)]),
         "schema": schema_ns(s),
         "no-new-nodes": no_new_nodes(s0, s),
+        "top:others": others_lists_unchanged(s0, s, self),
+        "inv:linked": linked(s), "inv:forest": forest(s), "inv:own-lists": own_lists(s), "inv:kids-typed": kids_typed(s),
     }
 
 
@@ -81,4 +85,458 @@ def install_add_child(w):
         assumptions=("T-unfold(Sub,W,Tree)", "T-frame(subtree)"))
     w.add(con)
     w.loop(Q_ADD_CHILD, 1, inv=ac_loop_inv, axioms=ac_loop_axioms)
+    return con
+
+
+# ================================================================================================ C09 vocabulary
+_IDX = z3.Function("first_index", smt.ElemArr, I, Val, I)   # ghost: first index of x in elems[0..n), or -1
+
+
+def IDX(e, n, x):
+    return _IDX(e, n, x)
+
+
+def idx_def(e, n, x):
+    """defining property of first_index at one instance (T-unfold)"""
+    j = z3.Int("ix_j")
+    r = _IDX(e, n, x)
+    return z3.Or(z3.And(r == -1, smt.FA([j], z3.Implies(z3.And(0 <= j, j < n), e[j] != x), patterns=[e[j]])),
+                 z3.And(0 <= r, r < n, e[r] == x, smt.FA([j], z3.Implies(z3.And(0 <= j, j < r), e[j] != x), patterns=[e[j]])))
+
+
+def linked(s):
+    """every listed child's parent link names the node that lists it"""
+    n, i = z3.Ints("lk_n lk_i")
+    return smt.FA([n, i], z3.Implies(z3.And(s.is_node(n), 0 <= i, i < s.nkids(n)), s.f("_parent", s.kid(n, i)) == Val.ref(n)),
+                  patterns=[s.at(s.kids(n), i)])
+
+
+def forest(s):
+    """a node is listed at most once overall"""
+    n, i, n2, i2 = z3.Ints("fo_n fo_i fo_n2 fo_i2")
+    return smt.FA([n, i, n2, i2], z3.Implies(
+        z3.And(s.is_node(n), s.is_node(n2), 0 <= i, i < s.nkids(n), 0 <= i2, i2 < s.nkids(n2), s.at(s.kids(n), i) == s.at(s.kids(n2), i2)),
+        z3.And(n == n2, i == i2)), patterns=[z3.MultiPattern(s.at(s.kids(n), i), s.at(s.kids(n2), i2))])
+
+
+def unlisted(s, c):
+    n, i = z3.Ints("ul_n ul_i")
+    return smt.FA([n, i], z3.Implies(z3.And(s.is_node(n), 0 <= i, i < s.nkids(n)), s.at(s.kids(n), i) != Val.ref(c)),
+                  patterns=[s.at(s.kids(n), i)])
+
+
+def kids_typed(s):
+    """T-schema, quantified: listed children are allocated nodes; children fields are allocated lists"""
+    n, i = z3.Ints("kt_n kt_i")
+    ch = s.f("_children", n)
+    return z3.And(
+        smt.FA([n], z3.Implies(s.is_node(n), z3.And(Val.is_ref(ch), s.alloc(Val.r(ch)), kind(Val.r(ch)) == KIND_LIST, s.len(Val.r(ch)) >= 0)),
+               patterns=[s.f("_children", n)]),
+        smt.FA([n, i], z3.Implies(z3.And(s.is_node(n), 0 <= i, i < s.nkids(n)),
+                                  z3.And(Val.is_ref(s.at(s.kids(n), i)), s.is_node(s.kid(n, i)))), patterns=[s.at(s.kids(n), i)]))
+
+
+def shape_inv(s):
+    return {"linked": linked(s), "forest": forest(s), "own-lists": own_lists(s), "kids-typed": kids_typed(s)}
+
+
+def others_lists_unchanged(s0, s, self):
+    """every other node still has the same list object with the same contents"""
+    n = z3.Int("ou_n")
+    k0 = s0.f("_children", n)
+    return smt.FA([n], z3.Implies(z3.And(s0.is_node(n), n != self),
+                                  z3.And(s.f("_children", n) == k0, s.len(Val.r(k0)) == s0.len(Val.r(k0)), s.elems(Val.r(k0)) == s0.elems(Val.r(k0)))),
+                  patterns=[s.f("_children", n)])
+
+
+# ---------------------------------------------------------------------------------------- remove_child
+Q_REMOVE_CHILD = "metapype.model.node:Node.remove_child"
+
+
+def install_remove_child(w):
+    def requires(s, self, child):
+        return shape_inv(s)
+
+    def axioms(s, self, child):
+        l = s.kids(self)
+        return {"idx": idx_def(s.elems(l), s.len(l), Val.ref(child))}
+
+    def absent_(s, self, child):
+        l = s.kids(self)
+        return IDX(s.elems(l), s.len(l), Val.ref(child)) == -1
+
+    def ensures(s0, s, self, child, result=None):
+        j = z3.Int("rc_j")
+        l = s0.kids(self)
+        n, e0, e1 = s0.len(l), s0.elems(l), s.elems(l)
+        p = IDX(e0, n, Val.ref(child))
+        d = {
+            "top:list-object": s.f("_children", self) == s0.f("_children", self),
+            "top:list-len": s.len(l) == n - 1,
+            "top:list-elems": smt.FA([j], z3.Implies(z3.And(0 <= j, j < n - 1), e1[j] == z3.If(j < p, e0[j], e0[j + 1])), patterns=[e1[j]]),
+            "top:others": others_lists_unchanged(s0, s, self),
+            "top:parent-cleared": s.f("_parent", child) == Val.none,
+        }
+        d.update({"inv:" + k: v for k, v in shape_inv(s).items()})
+        return d
+
+    con = Contract(Q_REMOVE_CHILD, params={"self": "Node", "child": "Node"}, requires=requires, axioms=axioms, ensures=ensures,
+                   raises=[(ValueError, absent_, None)], writes=("llen", "lelem", "F:_parent"),
+                   mods={"llen": lambda s0, r, self, child: r == s0.kids(self), "lelem": lambda s0, r, self, child: r == s0.kids(self),
+                         "F:_parent": lambda s0, r, self, child: r == child},
+                   mod=lambda s0, r, **kw: z3.BoolVal(False), result_ty="none", assumptions=("T-unfold(first_index)",))
+    w.add(con)
+    return con
+
+
+# ---------------------------------------------------------------------------------------- remove_children
+Q_REMOVE_CHILDREN = "metapype.model.node:Node.remove_children"
+
+
+def install_remove_children(w):
+    def requires(s, self):
+        return shape_inv(s)
+
+    def ensures(s0, s, self, result=None):
+        j = z3.Int("rcs_j")
+        d = {"top:empty": s.nkids(self) == 0, "top:fresh-list": s.kids(self) >= s0.top,
+             "top:others": others_lists_unchanged(s0, s, self),
+             "top:parents-cleared": smt.FA([j], z3.Implies(z3.And(0 <= j, j < s0.nkids(self)), s.f("_parent", s0.kid(self, j)) == Val.none),
+                                           patterns=[s0.at(s0.kids(self), j)])}
+        d.update({"inv:" + k: v for k, v in shape_inv(s).items()})
+        return d
+
+    def was_child(s0, r, self):
+        j = z3.Int("wc_j")
+        return z3.Exists([j], z3.And(0 <= j, j < s0.nkids(self), s0.at(s0.kids(self), j) == Val.ref(r)))
+
+    def inv(s0, s, v):
+        j = z3.Int("rci_j")
+        self = v.self
+        return {"bound": v._k <= s0.nkids(self),
+                "cleared": smt.FA([j], z3.Implies(z3.And(0 <= j, j < v._k), s.f("_parent", s0.kid(self, j)) == Val.none),
+                                  patterns=[s0.at(s0.kids(self), j)])}
+
+    con = Contract(Q_REMOVE_CHILDREN, params={"self": "Node"}, requires=requires, ensures=ensures,
+                   writes=("F:_children", "llen", "lelem", "F:_parent"), mods={"F:_children": lambda s0, r, self: r == self, "F:_parent": was_child},
+                   mod=lambda s0, r, **kw: z3.BoolVal(False), allocates=True, result_ty="none")
+    w.add(con)
+    w.loop(Q_REMOVE_CHILDREN, 1, inv=inv)
+    return con
+
+
+# ---------------------------------------------------------------------------------------- child_index
+Q_CHILD_INDEX = "metapype.model.node:Node.child_index"
+
+
+def install_child_index(w):
+    def axioms(s, self, child):
+        l = s.kids(self)
+        return {"idx": idx_def(s.elems(l), s.len(l), Val.ref(child))}
+
+    def ensures(s0, s, self, child, result):
+        l = s0.kids(self)
+        p = IDX(s0.elems(l), s0.len(l), Val.ref(child))
+        return {"top:index": result == z3.If(p == -1, Val.none, Val.intv(p))}
+
+    con = Contract(Q_CHILD_INDEX, params={"self": "Node", "child": "Node"}, axioms=axioms, ensures=ensures, result_ty="opt:int",
+                   assumptions=("T-unfold(first_index)",))
+    w.add(con)
+    return con
+
+
+# ---------------------------------------------------------------------------------------- shift
+Q_SHIFT = "metapype.model.node:Node.shift"
+from metapype.model.node import Shift
+
+
+def install_shift(w):
+    def nm_at(s, e, j):
+        return s.name(Val.r(e[j]))
+
+    def requires(s, self, child, direction, sib):
+        return shape_inv(s)
+
+    def axioms(s, self, child, direction, sib):
+        l = s.kids(self)
+        return {"idx": idx_def(s.elems(l), s.len(l), Val.ref(child))}
+
+    def raises_cond(s, self, child, direction, sib):
+        l = s.kids(self)
+        bad_dir = not (direction is Shift.RIGHT or direction is Shift.LEFT)
+        return z3.Or(IDX(s.elems(l), s.len(l), Val.ref(child)) == -1, z3.BoolVal(bad_dir))
+
+    def ensures(s0, s, self, child, direction, sib, result):
+        j = z3.Int("sh_j")
+        l = s0.kids(self)
+        n, e0, e1 = s0.len(l), s0.elems(l), s.elems(l)
+        idx = IDX(e0, n, Val.ref(child))
+        r = Val.i(result)
+        nm = s0.name(child)
+        if direction is Shift.RIGHT:
+            sib_case = z3.Or(
+                z3.And(r == idx, smt.FA([j], z3.Implies(z3.And(idx < j, j < n), nm_at(s0, e0, j) != nm), patterns=[e0[j]])),
+                z3.And(idx < r, r < n, nm_at(s0, e0, r) == nm,
+                       smt.FA([j], z3.Implies(z3.And(idx < j, j < r), nm_at(s0, e0, j) != nm), patterns=[e0[j]])))
+            pos_case = r == z3.If(idx < n - 1, idx + 1, idx)
+        else:
+            sib_case = z3.Or(
+                z3.And(r == idx, smt.FA([j], z3.Implies(z3.And(0 <= j, j < idx), nm_at(s0, e0, j) != nm), patterns=[e0[j]])),
+                z3.And(0 <= r, r < idx, nm_at(s0, e0, r) == nm,
+                       smt.FA([j], z3.Implies(z3.And(r < j, j < idx), nm_at(s0, e0, j) != nm), patterns=[e0[j]])))
+            pos_case = r == z3.If(idx > 0, idx - 1, idx)
+        d = {
+            "top:result-int": Val.is_intv(result),
+            "top:target": z3.If(sib, sib_case, pos_case),
+            "top:list-object": s.f("_children", self) == s0.f("_children", self),
+            "top:list-len": s.len(l) == n,
+            "top:list-swap": smt.FA([j], z3.Implies(z3.And(0 <= j, j < n),
+                                                    e1[j] == z3.If(j == idx, e0[r], z3.If(j == r, e0[idx], e0[j]))), patterns=[e1[j]]),
+            "top:new-index": e1[r] == Val.ref(child),
+            "top:others": others_lists_unchanged(s0, s, self),
+        }
+        d.update({"inv:" + k: v for k, v in shape_inv(s).items()})
+        return d
+
+    def inv_right(s0, s, v):
+        j = z3.Int("sr_j")
+        l = s0.kids(v.self)
+        n, e0 = s0.len(l), s0.elems(l)
+        idx = IDX(e0, n, Val.ref(v.child))
+        return {"index": v.index == idx, "same": z3.And(s.elems(l) == e0, s.len(l) == n),
+                "none-yet": smt.FA([j], z3.Implies(z3.And(idx < j, j < idx + 1 + v._k), nm_at(s0, e0, j) != v.name), patterns=[e0[j]]),
+                "bound": idx + 1 + v._k <= z3.If(n > idx + 1, n, idx + 1)}
+
+    def inv_left(s0, s, v):
+        j = z3.Int("sl_j")
+        l = s0.kids(v.self)
+        n, e0 = s0.len(l), s0.elems(l)
+        idx = IDX(e0, n, Val.ref(v.child))
+        return {"index": v.index == idx, "same": z3.And(s.elems(l) == e0, s.len(l) == n),
+                "none-yet": smt.FA([j], z3.Implies(z3.And(idx - 1 - v._k < j, j < idx), nm_at(s0, e0, j) != v.name), patterns=[e0[j]]),
+                "bound": v._k <= idx}
+
+    con = Contract(Q_SHIFT, params={"self": "Node", "child": "Node", "sib": "bool"}, requires=requires, axioms=axioms, ensures=ensures,
+                   raises=[(ValueError, raises_cond, None)], writes=("lelem",),
+                   mods={"lelem": lambda s0, r, self, **kw: r == s0.kids(self)}, mod=lambda s0, r, **kw: z3.BoolVal(False),
+                   result_ty="int", assumptions=("T-unfold(first_index)",))
+    w.add(con)
+    w.loop(Q_SHIFT, 1, inv=inv_right)
+    w.loop(Q_SHIFT, 2, inv=inv_left)
+    return con
+
+
+# ================================================================================================ registry (C14)
+Q_DELETE = "metapype.model.node:Node.delete_node_instance"
+
+
+def store_map(s):
+    return s.dmap(STORE)
+
+
+def idkey(s, m):
+    return Val.strv(s.fs("_id", m))
+
+
+def reg_sub(s, n):
+    """every node of the subtree at n is registered under its own id"""
+    m = z3.Int("rg_m")
+    return smt.FA([m], z3.Implies(SUB(s, n, m), store_map(s)[idkey(s, m)] == Val.ref(m)), patterns=[SUB(s, n, m)])
+
+
+def bterm(x):
+    return z3.BoolVal(x) if isinstance(x, bool) else x
+
+
+def deleted_key(s0, n, k, upto=None):
+    """key k is the id of a node in Sub(n) (or, with upto, below one of the first `upto` children of n)"""
+    v = store_map(s0)[k]
+    m = Val.r(v)
+    inside = SUB(s0, n, m) if upto is None else below_first(s0, n, upto, m)
+    return z3.And(Val.is_ref(v), inside, idkey(s0, m) == k)
+
+
+def install_delete(w):
+    def target(s, id):
+        return Val.r(store_map(s)[Val.strv(id)])
+
+    def requires(s, cls, id, children):
+        n = target(s, id)
+        ch = bterm(children)
+        return {"present": store_map(s)[Val.strv(id)] != smt.absent,
+                "is-node": z3.Implies(ch, z3.And(Val.is_ref(store_map(s)[Val.strv(id)]), s.is_node(n), s.fs("_id", n) == id)),
+                "tree": z3.Implies(ch, z3.And(TREE(s, n), wf_sub(s, n))),
+                "registered": z3.Implies(ch, reg_sub(s, n)),
+                "kids-typed": kids_typed(s)}
+
+    def axioms(s, cls, id, children):
+        return tree_axioms(s, target(s, id))
+
+    def ensures(s0, s, cls, id, children, result=None):
+        k = z3.Const("dl_k", Val)
+        n = target(s0, id)
+        ch = bterm(children)
+        st0, st1 = store_map(s0), store_map(s)
+        return {"top:exact-delta": smt.FA([k], st1[k] == z3.If(z3.If(ch, deleted_key(s0, n, k), k == Val.strv(id)), smt.absent, st0[k]),
+                                          patterns=[st1[k]])}
+
+    def inv(s0, s, v):
+        k = z3.Const("di_k", Val)
+        n = v.node
+        st0, st1 = store_map(s0), store_map(s)
+        return {"bound": v._k <= s0.nkids(n),
+                "delta": smt.FA([k], st1[k] == z3.If(deleted_key(s0, n, k, upto=v._k), smt.absent, st0[k]), patterns=[st1[k]])}
+
+    def loop_axioms(s0, s, v):
+        ch = s0.kid(v.node, v._k)
+        return {"kid-refl": SUB(s0, ch, ch)}
+
+    con = Contract(Q_DELETE, params={"cls": ("const", Node), "id": "str", "children": "bool"}, requires=requires, axioms=axioms,
+                   ensures=ensures, writes=DICT_ARRS, mod=lambda s0, r, **kw: r == STORE, result_ty="none",
+                   decreases=lambda s, cls, id, children: z3.If(bterm(children), H(s, target(s, id)), 0),
+                   assumptions=("T-unfold(Sub,W,Tree)",))
+    w.add(con)
+    w.loop(Q_DELETE, 1, inv=inv, axioms=loop_axioms)
+    return con
+
+
+# ---------------------------------------------------------------------------------------- replace_child
+Q_REPLACE = "metapype.model.node:Node.replace_child"
+
+
+def install_replace_child(w):
+    def requires(s, self, old_child, new_child, delete_old):
+        d = dict(shape_inv(s))
+        d["unlisted-new"] = unlisted(s, new_child)
+        d["new-not-self"] = new_child != self
+        dl = bterm(delete_old)
+        d["old-registered"] = z3.Implies(dl, z3.And(store_map(s)[idkey(s, old_child)] == Val.ref(old_child), reg_sub(s, old_child),
+                                                    TREE(s, old_child), wf_sub(s, old_child), z3.Not(SUB(s, old_child, self))))
+        return d
+
+    def axioms(s, self, old_child, new_child, delete_old):
+        l = s.kids(self)
+        d = {"idx": idx_def(s.elems(l), s.len(l), Val.ref(old_child))}
+        d.update(tree_axioms(s, old_child))
+        return d
+
+    def raises_cond(s, self, old_child, new_child, delete_old):
+        l = s.kids(self)
+        return z3.Or(s.name(new_child) != s.name(old_child), IDX(s.elems(l), s.len(l), Val.ref(old_child)) == -1)
+
+    def rpost(s0, s, self, old_child, new_child, delete_old):
+        n = z3.Int("rp_n")
+        return {"lists-unchanged": others_lists_unchanged(s0, s, z3.IntVal(-1)),
+                "listed-parent-links-unchanged": smt.FA([n], z3.Implies(z3.And(s0.is_node(n), n != new_child),
+                                                                           s.f("_parent", n) == s0.f("_parent", n)), patterns=[s.f("_parent", n)]),
+                "registry-unchanged": store_map(s) == store_map(s0)}
+
+    def ensures(s0, s, self, old_child, new_child, delete_old, result=None):
+        j = z3.Int("rp_j")
+        k = z3.Const("rp_k", Val)
+        l = s0.kids(self)
+        n, e0, e1 = s0.len(l), s0.elems(l), s.elems(l)
+        p = IDX(e0, n, Val.ref(old_child))
+        st0, st1 = store_map(s0), store_map(s)
+        dl = bterm(delete_old)
+        d = {
+            "top:list-object": s.f("_children", self) == s0.f("_children", self),
+            "top:list-len": s.len(l) == n,
+            "top:list-elems": smt.FA([j], z3.Implies(z3.And(0 <= j, j < n), e1[j] == z3.If(j == p, Val.ref(new_child), e0[j])), patterns=[e1[j]]),
+            "top:parent": s.f("_parent", new_child) == Val.ref(self),
+            "top:old-parent-cleared": s.f("_parent", old_child) == Val.none,
+            "top:others": others_lists_unchanged(s0, s, self),
+            "top:registry": smt.FA([k], st1[k] == z3.If(z3.And(dl, deleted_key(s0, old_child, k)), smt.absent, st0[k]), patterns=[st1[k]]),
+        }
+        d.update({"inv:" + kk: v for kk, v in shape_inv(s).items()})
+        return d
+
+    con = Contract(Q_REPLACE, params={"self": "Node", "old_child": "Node", "new_child": "Node", "delete_old": "bool"},
+                   requires=requires, axioms=axioms, ensures=ensures, raises=[(ValueError, raises_cond, None)],
+                   writes=("F:_parent", "lelem") + DICT_ARRS,
+                   mods={"F:_parent": lambda s0, r, new_child, old_child, **kw: z3.Or(r == new_child, r == old_child), "lelem": lambda s0, r, self, **kw: r == s0.kids(self)},
+                   mod=lambda s0, r, **kw: r == STORE, result_ty="none", assumptions=("T-unfold(first_index)", "T-frame(subtree)"))
+    w.add(con)
+    w.call_lemmas[(Q_REPLACE, Q_DELETE)] = lambda s0, s, v: {"frame": subtree_frame(s0, s, v.old_child)}
+    return con
+
+
+# ================================================================================================ queries (C09)
+Q_FIND_CHILD = "metapype.model.node:Node.find_child"
+Q_FIND_DESC = "metapype.model.node:Node.find_descendant"
+
+
+def install_find_child(w):
+    def ensures(s0, s, self, child_name, result):
+        j, p = z3.Ints("fc_j fc_p")
+        kids = s0.kids(self)
+        n = s0.len(kids)
+        isnone = result == Val.none
+        nm = lambda i: s0.name(s0.nat(kids, i))
+        return {
+            "top:none-iff-absent": isnone == smt.FA([j], z3.Implies(z3.And(0 <= j, j < n), nm(j) != child_name)),
+            "top:first-match": z3.Implies(z3.Not(isnone), z3.Exists([p], z3.And(
+                0 <= p, p < n, s0.at(kids, p) == result, nm(p) == child_name,
+                smt.FA([j], z3.Implies(z3.And(0 <= j, j < p), nm(j) != child_name))))),
+        }
+
+    def inv(s0, s, v):
+        j = z3.Int("fc_j")
+        kids = s0.kids(v.self)
+        return smt.FA([j], z3.Implies(z3.And(0 <= j, j < v._k), s0.name(s0.nat(kids, j)) != v.child_name))
+
+    con = Contract(Q_FIND_CHILD, params={"self": "Node", "child_name": "str"}, ensures=ensures, result_ty="opt:Node")
+    w.add(con)
+    w.loop(Q_FIND_CHILD, 1, inv=inv)
+    return con
+
+
+_FD = z3.Function("first_desc", *_CS, smt.FieldArr, I, z3.StringSort(), Val)   # ghost: first strict descendant named x in document order
+_FI = z3.Function("first_desc_child", *_CS, smt.FieldArr, I, z3.StringSort(), I)  # ghost witness: index of the child that yields it
+
+
+def FD(s, n, x):
+    return _FD(*s.cs, s.arr("F:_name"), n, x)
+
+
+def HIT(s, n, k, x):
+    """what child k of n contributes: the child itself if it is named x, else its own first matching descendant"""
+    ch = s.kid(n, k)
+    return z3.If(s.name(ch) == x, Val.ref(ch), FD(s, ch, x))
+
+
+def fd_def(s, n, x):
+    """one-level unfolding of first_desc at n: preorder = child, then its subtree, children left to right"""
+    j = z3.Int("fd_j")
+    r = FD(s, n, x)
+    fi = _FI(*s.cs, s.arr("F:_name"), n, x)
+    return z3.Or(
+        z3.And(r == Val.none, smt.FA([j], z3.Implies(z3.And(0 <= j, j < s.nkids(n)), HIT(s, n, j, x) == Val.none), patterns=[s.at(s.kids(n), j)])),
+        z3.And(0 <= fi, fi < s.nkids(n), HIT(s, n, fi, x) == r, r != Val.none,
+               smt.FA([j], z3.Implies(z3.And(0 <= j, j < fi), HIT(s, n, j, x) == Val.none), patterns=[s.at(s.kids(n), j)])))
+
+
+def install_find_descendant(w):
+    def requires(s, self, descendant_name):
+        return {"wf": wf_sub(s, self), "kids-typed": kids_typed(s)}
+
+    def axioms(s, self, descendant_name):
+        d = tree_axioms(s, self)
+        d["fd"] = fd_def(s, self, descendant_name)
+        return d
+
+    def ensures(s0, s, self, descendant_name, result):
+        return {"top:first-in-document-order": result == FD(s0, self, descendant_name)}
+
+    def inv(s0, s, v):
+        j = z3.Int("fdi_j")
+        n = v.self
+        return {"bound": v._k <= s0.nkids(n), "none-so-far": v.V("descendant") == Val.none,
+                "earlier-none": smt.FA([j], z3.Implies(z3.And(0 <= j, j < v._k), HIT(s0, n, j, v.descendant_name) == Val.none),
+                                       patterns=[s0.at(s0.kids(n), j)])}
+
+    con = Contract(Q_FIND_DESC, params={"self": "Node", "descendant_name": "str"}, requires=requires, axioms=axioms, ensures=ensures,
+                   result_ty="opt:Node", decreases=lambda s, self, **kw: H(s, self), assumptions=("T-unfold(first_desc)",))
+    w.add(con)
+    w.loop(Q_FIND_DESC, 1, inv=inv, var_types={"descendant": "opt:Node"})
     return con
